@@ -177,7 +177,7 @@ def gen_fixed(rng, cfg, combs, count, tag, panic=0.03, style="mixed", allow_zero
             for _ in range((total if long else min(total, 40)) + 3):
                 ops.append("p" if rng.random() < 0.85 else "q")
                 if n > 0 and rng.random() < 0.15:
-                    ops.append(f"f{pick_child(rng, n)}.{rng.randrange(3)}")
+                    ops.append(f"f{pick_child(rng, n)}.{rng.randrange(60 if long else 3)}")       # long: also the wakers handed out late in a child's life
         elif style == "executor" or (style == "mixed" and r < 0.45):
             ops = ops_executor(rng, n)
         else:
@@ -229,7 +229,7 @@ def gen_nest(rng, count, tag, panic=0.02, combs=None, local=False, long=False):
             for _ in range(total + 3):
                 ops.append("p" if rng.random() < 0.85 else "q")
                 if rng.random() < 0.1:
-                    ops.append(f"f{rng.randrange(n)}.{rng.randrange(3)}")
+                    ops.append(f"f{rng.randrange(n)}.{rng.randrange(30)}")
         scs = ";".join(scs)
         if not long:
             ops = ops_executor(rng, n) if rng.random() < 0.5 else ops_adversarial(rng, n)
